@@ -30,6 +30,8 @@ type c02Plan struct {
 	// the peer's first (clear-text) header addresses somebody else: it must not get to choose the name the client
 	// puts into its ClientHello and verifies the certificate against
 	foreignTo bool
+	// the server the client connects to is not the domain of its own address (a gateway, a hosted domain)
+	gateway bool
 }
 
 var c02Lists = []string{"starttls-required", "starttls-optional", "starttls-absent-sasl-offered", "empty", "starttls-among-others", "unknown-only", "bind-and-sasl-only"}
@@ -51,24 +53,44 @@ type c02Outcome struct {
 	finishedAt time.Duration
 }
 
+// c02Neg is ONE negotiator value used for every session of a run (as an application that builds it once would); the
+// tee destinations of the session in progress are read from it when the negotiator asks for its configuration.
+type c02Neg struct {
+	neg           xmpp.Negotiator
+	teeIn, teeOut *bytes.Buffer
+}
+
+func newC02Neg(feats []xmpp.StreamFeature, tee bool) *c02Neg {
+	// the destinations exist before the negotiator does (it asks for its configuration once when it is built)
+	n := &c02Neg{teeIn: &bytes.Buffer{}, teeOut: &bytes.Buffer{}}
+	n.neg = xmpp.NewNegotiator(func(*xmpp.Session, *xmpp.StreamConfig) xmpp.StreamConfig {
+		cfg := xmpp.StreamConfig{Features: feats}
+		if tee {
+			cfg.TeeIn, cfg.TeeOut = n.teeIn, n.teeOut
+		}
+		return cfg
+	})
+	return n
+}
+
 var c02ClearRe = regexp.MustCompile(`^\s*(<\?xml[^>]*\?>)?\s*<stream:stream [^>]*>\s*(<starttls xmlns='urn:ietf:params:xml:ns:xmpp-tls'/>)?\s*(</stream:stream>)?\s*$`)
 
 // c02Session runs one client session against the scripted server.
-func c02Session(rc *RC, idx int, tag string, origin jid.JID, feats []xmpp.StreamFeature, plan c02Plan, tee bool, cert tls.Certificate) c02Outcome {
+func c02Session(rc *RC, idx int, tag string, origin jid.JID, neg *c02Neg, plan c02Plan, tee bool, cert tls.Certificate) c02Outcome {
 	var o c02Outcome
 	cc, sc := rc.Net.Pipe(fmt.Sprintf("cli%d%s", idx, tag), fmt.Sprintf("srv%d%s", idx, tag))
 	ctx, cancel := context.WithTimeout(context.Background(), 20*time.Second)
 	defer func() { cancel(); cc.Close(); sc.Close() }()
-	var teeIn, teeOut bytes.Buffer
+	teeIn, teeOut := neg.teeIn, neg.teeOut
+	teeIn.Reset()
+	teeOut.Reset()
 	var sess *xmpp.Session
+	location := origin.Domain()
+	if plan.gateway {
+		location = jid.MustParse("gw." + origin.Domain().String())
+	}
 	sut := rc.Spawn("client"+tag, func() {
-		sess, o.err = xmpp.NewSession(ctx, origin.Domain(), origin, cc, 0, xmpp.NewNegotiator(func(*xmpp.Session, *xmpp.StreamConfig) xmpp.StreamConfig {
-			cfg := xmpp.StreamConfig{Features: feats}
-			if tee {
-				cfg.TeeIn, cfg.TeeOut = &teeIn, &teeOut
-			}
-			return cfg
-		}))
+		sess, o.err = xmpp.NewSession(ctx, location, origin, cc, 0, neg.neg)
 		o.done, o.finishedAt = true, rc.S.Now()
 	})
 	out := cc.Out()
@@ -83,7 +105,7 @@ func c02Session(rc *RC, idx int, tag string, origin jid.JID, feats []xmpp.Stream
 		}
 		simrt.WaitUntil("srv:hdrend", func() bool { return o.done || bytes.HasSuffix(bytes.TrimSpace(out.Tap), []byte(">")) })
 		hdr := func(w io.Writer, id string, features string) {
-			fmt.Fprintf(w, `<?xml version='1.0'?><stream:stream xmlns='jabber:client' xmlns:stream='http://etherx.jabber.org/streams' version='1.0' id='%s' from='%s'>%s`, id, origin.Domain(), features)
+			fmt.Fprintf(w, `<?xml version='1.0'?><stream:stream xmlns='jabber:client' xmlns:stream='http://etherx.jabber.org/streams' version='1.0' id='%s' from='%s'>%s`, id, location, features)
 		}
 		tlsReq, tlsOpt := `<starttls xmlns='urn:ietf:params:xml:ns:xmpp-tls'><required/></starttls>`, `<starttls xmlns='urn:ietf:params:xml:ns:xmpp-tls'/>`
 		mech := `<mechanisms xmlns='urn:ietf:params:xml:ns:xmpp-sasl'><mechanism>PLAIN</mechanism></mechanisms>`
@@ -106,7 +128,7 @@ func c02Session(rc *RC, idx int, tag string, origin jid.JID, feats []xmpp.Stream
 			fl = mech + bindF
 		}
 		if plan.foreignTo {
-			fmt.Fprintf(sc, `<?xml version='1.0'?><stream:stream xmlns='jabber:client' xmlns:stream='http://etherx.jabber.org/streams' version='1.0' id='clear-first' from='%s' to='me@attacker.example'><stream:features>%s</stream:features>`, origin.Domain(), fl)
+			fmt.Fprintf(sc, `<?xml version='1.0'?><stream:stream xmlns='jabber:client' xmlns:stream='http://etherx.jabber.org/streams' version='1.0' id='clear-first' from='%s' to='me@attacker.example'><stream:features>%s</stream:features>`, location, fl)
 		} else {
 			hdr(sc, "clear-first", `<stream:features>`+fl+`</stream:features>`)
 		}
@@ -177,7 +199,7 @@ func c02Session(rc *RC, idx int, tag string, origin jid.JID, feats []xmpp.Stream
 			return
 		case "proceed+pipelined-plaintext":
 			rc.Fire("mitm-pipelined-plaintext")
-			io.WriteString(sc, proceed+`<?xml version='1.0'?><stream:stream xmlns='jabber:client' xmlns:stream='http://etherx.jabber.org/streams' version='1.0' id='clear-id' from='`+origin.Domain().String()+`'><stream:features/>`)
+			io.WriteString(sc, proceed+`<?xml version='1.0'?><stream:stream xmlns='jabber:client' xmlns:stream='http://etherx.jabber.org/streams' version='1.0' id='clear-id' from='`+location.String()+`'><stream:features/>`)
 		default:
 			io.WriteString(sc, proceed)
 		}
@@ -246,7 +268,7 @@ func c02Session(rc *RC, idx int, tag string, origin jid.JID, feats []xmpp.Stream
 	} else {
 		o.clearOut = append([]byte(nil), tap...)
 	}
-	o.teeIn, o.teeOut, o.tlsInside = teeIn.Bytes(), teeOut.Bytes(), inside.Bytes()
+	o.teeIn, o.teeOut, o.tlsInside = append([]byte(nil), teeIn.Bytes()...), append([]byte(nil), teeOut.Bytes()...), inside.Bytes()
 	cancel()
 	cc.Close()
 	sc.Close()
@@ -270,6 +292,8 @@ func runC02(rc *RC) {
 	}
 	// ONE set of feature values reused for every session of the sequence
 	feats := []xmpp.StreamFeature{xmpp.StartTLS(cfg), xmpp.SASL("", "pass", sasl.Plain), xmpp.BindResource()}
+	// ... and ONE negotiator per tee setting, reused as well
+	negOff, negOn := newC02Neg(feats, false), newC02Neg(feats, true)
 	rc.Describe("cfg-nil=%v sessions=%d", useNil, nSess)
 	for i := 0; i < nSess; i++ {
 		dom := "example.net"
@@ -277,14 +301,14 @@ func runC02(rc *RC) {
 			dom = domains[ch.Int("workload", len(domains))]
 		}
 		origin := jid.MustParse("me@" + dom + "/r")
-		plan := c02Plan{list: ch.Int("script", len(c02Lists)), answer: ch.Int("script", len(c02Answers)), foreignTo: ch.Chance("script", 1, 5)}
+		plan := c02Plan{list: ch.Int("script", len(c02Lists)), answer: ch.Int("script", len(c02Answers)), foreignTo: ch.Chance("script", 1, 5), gateway: useNil && ch.Chance("script", 1, 5)}
 		if f := os.Getenv("C02_FORCE"); f != "" {
 			fmt.Sscanf(f, "%d,%d", &plan.list, &plan.answer)
 		}
-		rc.Describe("session %d origin=%s list=%s answer=%s foreign-to=%v", i, origin, c02Lists[plan.list], c02Answers[plan.answer], plan.foreignTo)
+		rc.Describe("session %d origin=%s list=%s answer=%s foreign-to=%v gateway=%v", i, origin, c02Lists[plan.list], c02Answers[plan.answer], plan.foreignTo, plan.gateway)
 		rc.CaseKey += fmt.Sprint(useNil, plan)
-		off := c02Session(rc, i, "a", origin, feats, plan, false, cert)
-		on := c02Session(rc, i, "b", origin, feats, plan, true, cert)
+		off := c02Session(rc, i, "a", origin, negOff, plan, false, cert)
+		on := c02Session(rc, i, "b", origin, negOn, plan, true, cert)
 		for k, o := range []c02Outcome{off, on} {
 			teeS := []string{"tee-off", "tee-on"}[k]
 			rc.Describe("  %s: err=%v state=%v sni=%q(seen=%v) in.id=%q", teeS, o.err, o.state, o.sni, o.sniSeen, o.inID)
